@@ -3797,6 +3797,44 @@ def quote_programs(ctx):
     return progs
 
 
+# Printing state (spec/JsPrintCtx.tla, shared with C09): context[ disturber(s), payload ].  The printer carries flags from
+# token to token (inFor: `in` must stay parenthesised inside a for-initialiser; expectExpr/groupedStmt; precedence); a
+# sub-expression that clears a flag and does not restore it changes how what FOLLOWS is printed.  C09 judges the syntax of
+# those programs; here they are EXECUTED: identifiers are bound by a preamble, loops are made finite, and the completion
+# (value flow into out(), thrown error class, SyntaxError of the minified text) is compared with the input's.
+# (source-text reflection of functions is outside the observation: every function/class stringifies to "F" in both runs)
+PRINTCTX_PRE = ('Object.getPrototypeOf(function(){}).toString=function(){return"F"};'
+                'var a,d,x,b=function(){return b},c=1,e="e",f={e:1,1:2},g=0;b.c=b;b[1]=b;b["c d"]=b;b.e=1;\n')
+PRINTCTX_POST = '\nout(typeof a,typeof d,d===true,d===false,typeof x,x===true,x===false)'
+
+
+def _spec_set(module, name):
+    txt = open(os.path.join(vlib.SPEC, module + '.tla')).read()
+    body = txt[txt.index(name + ' == {'):]
+    body = body[:body.index('\n}')]
+    return re.findall(r'^\s*"([^"]*)"', body, re.M)
+
+
+def printctx_programs(ctx):
+    cset, dset, pset = (_spec_set('JsPrintCtx', n) for n in ('Contexts', 'Disturbers', 'Payloads'))
+    rnd, quick = ctx.rnd, ctx.quick()
+    usable = []
+    for c in cset:
+        if c.startswith(('while(', 'do ', 'export ')) or c == 'for(var a=@D;d=@P;)c()':
+            continue                                 # would not terminate with truthy operands / module-only
+        usable.append(c.replace(';;);', ';;)break;').replace('for(;;);', 'for(;;)break;'))
+    hasin = lambda t: ' in ' in t.replace("'in", "' in").replace('in(', 'in (')
+    hot = [(c, [d], p) for c in usable if 'for(' in c for d in dset for p in pset if hasin(p)]
+    cold = [(c, [d], p) for c in usable for d in dset for p in pset if not ('for(' in c and hasin(p))]
+    two = [(rnd.choice(usable), [rnd.choice(dset), rnd.choice(dset)], rnd.choice(pset)) for _ in range(600 if quick else 4000)]
+    chosen = (vlib.sample(hot, 1400, rnd) + vlib.sample(cold, 700, rnd) + two) if quick else (hot + vlib.sample(cold, 9000, rnd) + two)
+    bodies = sorted(set(c.replace('@D', '+'.join(ds)).replace('@P', p) for c, ds, p in chosen))
+    # known finding C09 K14 (optional chain as template tag loses its parentheses) is pinned there, not re-reported here
+    bodies = [b for b in bodies if not excluded(b) and not re.search(r'\?\.[^`;]*\)+`', b)]
+    ok = valid_js(ctx, bodies)
+    return [PRINTCTX_PRE + b + PRINTCTX_POST for b, v in zip(bodies, ok) if v]
+
+
 def families(ctx, exe):
     quick = ctx.quick()
     rnd = ctx.rnd
@@ -3815,5 +3853,6 @@ def families(ctx, exe):
     fams.append(dict(name='quotes', sources=quote_programs(ctx), nenv=1, probe=0, batched=True))
     fams.append(dict(name='scaling', sources=scaling_programs(ctx), nenv=1, probe=0))
     fams.append(dict(name='with', sources=with_programs(ctx), nenv=1, probe=0))
+    fams.append(dict(name='printctx', sources=printctx_programs(ctx), nenv=1, probe=0))
     fams.append(dict(name='corpus', sources=corpus_programs(ctx), nenv=3 if quick else 4, probe=1))
     return fams
